@@ -53,6 +53,8 @@ impl Ctx {
             let reps = front::REPEATED_FRAMES.load(std::sync::atomic::Ordering::Relaxed);
             let misread = cli::CLI_READS_DIFFERENTLY.load(std::sync::atomic::Ordering::Relaxed);
             if misread > 0 { stats.counters.insert("options_the_executable_read_differently_from_what_was_asked".into(), misread as u64); }
+            let twins = front::ADLER_TWINS.load(std::sync::atomic::Ordering::Relaxed);
+            if twins > 0 { stats.counters.insert("apng_frame_pairs_with_equal_length_and_checksum".into(), twins as u64); }
             if pairs + reps > 0 {
                 stats.counters.insert("apng_frame_pairs_of_different_size_sharing_a_stream".into(), pairs as u64);
                 stats.counters.insert("apng_repeated_frames".into(), reps as u64);
